@@ -121,7 +121,8 @@ def render_packages(comp, arch, pkgs):
 def render_sources(comp, srcs):
     out = []
     for s in srcs:
-        files = [(f"{s['name']}_{s['version']}.{suf}", size) for suf, size in s["files"]]
+        files = [(f"{s['name']}_{s['version']}.{suf}", size) for suf, size in s["files"]] + \
+                [(fn, size) for fn, size in s.get("raw_files", [])]
         lines = [f"Package: {s['name']}", f"Version: {s['version']}", f"Directory: {src_dir(comp, s)}", "Files:"]
         lines += [f" {'0' * 32} {size} {fn}" for fn, size in files]
         lines += ["Checksums-Sha256:"] + [f" {'1' * 64} {size} {fn}" for fn, size in files]
@@ -174,6 +175,10 @@ def render_upstream(v):
                     for suf, size in s["files"]:
                         fn = f"{src_dir(comp, s)}/{s['name']}_{s['version']}.{suf}"
                         files[fn] = (pool_bytes(fn, size), BASE_DATE - 400)
+                        meta["pool"][fn] = size
+                    for name, size in s.get("raw_files", []):   # a file listed under its full name (e.g. one a Packages index lists too)
+                        fn = f"{src_dir(comp, s)}/{name}"
+                        files.setdefault(fn, (pool_bytes(fn, size), BASE_DATE - 500))
                         meta["pool"][fn] = size
             if cc["i18n"]:
                 data = f"Package: x\nDescription-md5: 0\nDescription-en: text {v['serial']}\n".encode()
